@@ -6,11 +6,12 @@ From Verif Require Import Base.Bytes Base.FastBytes Base.Hash Model.Merkle Model
 Import ListNotations.
 Open Scope N_scope.
 
-Inductive op := OBlock (k : block) (f : fault) | OReorg (b : N) | ORestart | OSnap | OReset.
+Inductive op := OBlock (k : block) (f : fault) | OReorg (b : N) | ORestart | OSnap | OReset
+  | ODrive (bs : list (block * fault)).   (* the blocks, all buffered, consumed by the real sync.EVMDriver; faults are transient *)
 
 (* result codes: 0 ok, 1 inconsistent, 2 fault, 3 constraint, 9 other *)
 Definition code_of (r : option perr) : N :=
-  match r with None => 0 | Some PInconsistent => 1 | Some PFault => 2 | Some PConstraint => 3 | Some (PTree _) => 1 end.
+  match r with None => 0 | Some PInconsistent => 1 | Some PFault => 2 | Some PConstraint => 3 | Some (PTree _) => 9 end.
 
 Record proofobs := mkPO { po_root : N; po_idx : N; po_sibs : list N; po_calc : option N; po_byler : option N }.
 Record snap := mkSnap {
@@ -79,6 +80,27 @@ Definition model_snap (st : bstate) (lastleaf : N -> option N) (obs : snap) : sn
                         (option_map r_pos (root_by_hash (d_tree d) (po_root o))))
          (sn_proofs obs)).
 
+(* sync.EVMDriver.handleNewBlock over a buffer of downloaded blocks: ErrInconsistentState => the downloader is cancelled but the
+   blocks already buffered are still consumed; any other error => the same block is retried (the injected fault is transient,
+   so the retry runs without it); a block that keeps failing blocks the driver for good *)
+Definition upd_leaves (m : N -> option N) (k : block) : N -> option N :=
+  fold_left (fun m e => match e with EBridge b => fun x => if x =? b_dc b then Some (bridge_leaf b) else m x | _ => m end) (k_events k) m.
+Fixpoint drive (bs : list (block * fault)) (st : bstate) (ll : N -> option N) : bstate * (N -> option N) :=
+  match bs with
+  | [] => (st, ll)
+  | (k, f) :: rest =>
+    match process_block f st k with
+    | (None, st') => drive rest st' (upd_leaves ll k)
+    | (Some PInconsistent, st') => drive rest st' ll
+    | (Some _, st') =>
+      match process_block None st' k with
+      | (None, st'') => drive rest st'' (upd_leaves ll k)
+      | (Some PInconsistent, st'') => drive rest st'' ll
+      | (Some _, st'') => (st'', ll)
+      end
+    end
+  end.
+
 (* run the operation list on the model; `lastleaf` tracks the last successfully processed leaf per dc *)
 Definition upd_leaf (m : N -> option N) (k v : N) : N -> option N := fun x => if x =? k then Some v else m x.
 Fixpoint run_ops (ops : list op) (st : bstate) (lastleaf : N -> option N) (obs : list snap) : list N * list snap :=
@@ -95,6 +117,7 @@ Fixpoint run_ops (ops : list op) (st : bstate) (lastleaf : N -> option N) (obs :
     | OReorg b => let '(rs, ss) := run_ops rest (reorg st b) lastleaf obs in (0 :: rs, ss)
     | ORestart => let '(rs, ss) := run_ops rest (restart st) lastleaf obs in (0 :: rs, ss)
     | OReset => let '(rs, ss) := run_ops rest bstate_new (fun _ => None) obs in (0 :: rs, ss)
+    | ODrive bs => let '(st', ll) := drive bs st lastleaf in let '(rs, ss) := run_ops rest st' ll obs in (0 :: rs, ss)
     | OSnap =>
       match obs with
       | [] => let '(rs, ss) := run_ops rest st lastleaf [] in (0 :: rs, ss)
@@ -103,8 +126,9 @@ Fixpoint run_ops (ops : list op) (st : bstate) (lastleaf : N -> option N) (obs :
     end
   end.
 
+Definition block_leaves (k : block) : list N := flat_map (fun e => match e with EBridge b => [bridge_leaf b] | _ => [] end) (k_events k).
 Definition all_leaves (ops : list op) : list N :=
-  flat_map (fun o => match o with OBlock k _ => flat_map (fun e => match e with EBridge b => [bridge_leaf b] | _ => [] end) (k_events k) | _ => [] end) ops.
+  flat_map (fun o => match o with OBlock k _ => block_leaves k | ODrive bs => flat_map (fun kf => block_leaves (fst kf)) bs | _ => [] end) ops.
 
 (* model == implementation, on the main run and on the twin run *)
 Definition corr_run (ops : list op) (res : list N) (snaps : list snap) : bool :=
